@@ -1,5 +1,5 @@
 """Child interpreter for C07's hash-seed sub-check: replays cases through main() in-process and prints digests.
-usage: python -m vf.c07child CASEFILE   (PYTHONHASHSEED is set by the parent)"""
+usage: python -m vf.c07child CASEFILE [forward|reverse|rotate|interleave]   (PYTHONHASHSEED is set by the parent)"""
 import hashlib
 import json
 import os
@@ -13,10 +13,20 @@ def main():
     from vf import cli
     from vf.props import c07
     cases = json.load(open(sys.argv[1]))
-    res = []
-    for case in cases:
-        r = c07.run_cli_case(case)
-        res.append([repr(r.rc), hashlib.sha256(r.out.encode('utf-8', 'surrogatepass')).hexdigest()[:16], r.exc_key, len(r.out)])
+    # each child may replay the batch in a different order: anything that depends on what the process did before
+    # (memo tables, registries, mutated defaults) then shows up as a difference between children
+    order = list(range(len(cases)))
+    mode = sys.argv[2] if len(sys.argv) > 2 else 'forward'
+    if mode == 'reverse':
+        order.reverse()
+    elif mode == 'rotate':
+        order = order[len(order) // 2:] + order[:len(order) // 2]
+    elif mode == 'interleave':
+        order = order[::2] + order[1::2]
+    res = [None] * len(cases)
+    for i in order:
+        r = c07.run_cli_case(cases[i])
+        res[i] = [repr(r.rc), hashlib.sha256(r.out.encode('utf-8', 'surrogatepass')).hexdigest()[:16], r.exc_key, len(r.out)]
     from vf import core
     core.cleanup_scratch()
     real_out.write(json.dumps(res))
